@@ -44,6 +44,8 @@ struct Del {
     t_ns: u64,
     pinned: bool,
     pinned_when_pass_looked: bool,
+    /// a query that had read this chunk while holding it pinned is still running, but the pin is gone
+    in_use_unpinned: bool,
 }
 
 fn scen(_spec: RunSpec) -> ScenFut {
@@ -127,12 +129,20 @@ fn scen(_spec: RunSpec) -> ScenFut {
         // synchronous stretch as the issue of its first DELETE (the first DELETE the compactor issues after
         // any other request)
         let pass_pins: Arc<Mutex<BTreeSet<String>>> = Arc::new(Mutex::new(BTreeSet::new()));
+        // chunks the currently running query has read while they were pinned (one query runs at a time)
+        let cur_reads: Arc<Mutex<BTreeSet<String>>> = Arc::new(Mutex::new(BTreeSet::new()));
         {
             let pins = pins.clone();
             let pass_pins = pass_pins.clone();
             let last_was_delete = Arc::new(std::sync::atomic::AtomicBool::new(false));
             let seed_paths: Vec<String> = seed_meta.keys().cloned().collect();
+            let cur_reads_obs = cur_reads.clone();
+            let pins_r = pins.clone();
             store::set_issue_observer(Box::new(move |node: u32, op: &str, _path: &str| {
+                if node == 1 && (op == "GET" || op == "HEAD") && _path.ends_with(".parquet") && pins_r.is_pinned(_path) {
+                    // the running query reads a chunk it holds pinned: it is using that chunk from now on
+                    cur_reads_obs.lock().unwrap().insert(_path.to_string());
+                }
                 if node != 0 {
                     return;
                 }
@@ -151,6 +161,7 @@ fn scen(_spec: RunSpec) -> ScenFut {
             let pins = pins.clone();
             let dels = dels.clone();
             let pass_pins_obs = pass_pins.clone();
+            let cur_reads_del = cur_reads.clone();
             store::set_delete_observer(Box::new(move |path: &str| {
                 if path.ends_with(".parquet") {
                     let q = RUNNING_QUERIES.with(|r| r.borrow().as_ref().map(|a| a.load(std::sync::atomic::Ordering::SeqCst)).unwrap_or(0));
@@ -162,7 +173,8 @@ fn scen(_spec: RunSpec) -> ScenFut {
                     }
                     let pinned = pins.is_pinned(path);
                     let at_pass = pass_pins_obs.lock().unwrap().contains(path);
-                    dels.lock().unwrap().push(Del { path: path.to_string(), t_ns: sim::now_ns(), pinned, pinned_when_pass_looked: at_pass });
+                    let in_use_unpinned = q > 0 && !pinned && cur_reads_del.lock().unwrap().contains(path);
+                    dels.lock().unwrap().push(Del { path: path.to_string(), t_ns: sim::now_ns(), pinned, pinned_when_pass_looked: at_pass, in_use_unpinned });
                 }
             }));
         }
@@ -255,11 +267,13 @@ fn scen(_spec: RunSpec) -> ScenFut {
                 (sim::w_range(3, 150) as u64, lo, now)
             })
             .collect();
+        let cur_reads_q = cur_reads.clone();
         let queries = tokio::spawn(async move {
             for (wait_s, lo, hi) in qplan {
                 tokio::time::sleep(Duration::from_secs(wait_s)).await;
                 // the query node runs on the same node as the compactor: a crash kills both; skip while dead
                 let sql = format!("SELECT count(*) AS c FROM metrics WHERE timestamp >= {lo} AND timestamp <= {hi}");
+                cur_reads_q.lock().unwrap().clear();
                 running.fetch_add(1, std::sync::atomic::Ordering::SeqCst);
                 let r = qn2.query(&sql).await;
                 running.fetch_sub(1, std::sync::atomic::Ordering::SeqCst);
@@ -298,6 +312,12 @@ fn scen(_spec: RunSpec) -> ScenFut {
         let dels = dels.lock().unwrap();
         let grace_ns = grace_s * 1_000_000_000;
         for d in dels.iter() {
+            if d.in_use_unpinned {
+                sim::violation(
+                    "C09/deleted-while-pinned/pin-released-before-query-finished",
+                    format!("{} was physically deleted at t=+{}s while the query that had pinned and read it was still running; its pin had been released early (grace {grace_s}s)", short(&d.path), d.t_ns / 1_000_000_000),
+                );
+            }
             if d.pinned {
                 // cause class from observed facts: was the chunk already pinned when this GC pass evaluated the
                 // pins (then the pass ignored a pin), or was the pin taken afterwards (the pass checks pins once
